@@ -593,7 +593,11 @@ func runHistory(r *vkit.R, id int, g *vkit.Rand, longWait bool, hungProbe bool) 
 	nA, nB := g.Range(2, 3), g.Range(1, 2)
 	// sel: which histories get a shape is decided by the history's index, not by the seed: the shapes whose minimum counts
 	// are asserted are constructed in every run (the seed still varies everything else about them)
-	sel := func(salt int, num, den uint64) bool { return vkit.Hash64(fmt.Sprint(id), fmt.Sprint(salt))%den < num }
+	sel := func(salt int, num, den uint64) bool {
+		x := vkit.Hash64(fmt.Sprint(id), fmt.Sprint(salt)) * 0x9E3779B97F4A7C15 // spread the hash's weak low bits
+		x ^= x >> 29
+		return (x*0xBF58476D1CE4E5B9>>33)%den < num
+	}
 	tlsA := sel(1, 3, 10)
 	h := newHist(r, id, nA, nB, tlsA)
 	defer h.close()
